@@ -187,19 +187,28 @@ func (br *bodyRun) mergeStates(sts []*State) *State {
 		ks = append(ks, k)
 	}
 	sort.Strings(ks)
+	flagVal := func(s *State, k, srt string) string {
+		if strings.HasPrefix(k, "called|") || strings.HasPrefix(k, "defer|") {
+			if v, ok := s.heap[k]; ok {
+				return v
+			}
+			return "false" // the call / defer statement was not executed on this path
+		}
+		return fc.heapSym(s, k, srt)
+	}
 	for _, k := range ks {
 		srt := fc.keySort[k]
-		t := fc.heapSym(sts[len(sts)-1], k, srt)
+		t := flagVal(sts[len(sts)-1], k, srt)
 		same := true
 		for i := len(sts) - 2; i >= 0; i-- {
-			ti := fc.heapSym(sts[i], k, srt)
+			ti := flagVal(sts[i], k, srt)
 			if ti != t {
 				same = false
 			}
 			t = ite(sts[i].liteG(), ti, t)
 		}
 		if same {
-			m.heap[k] = fc.heapSym(sts[0], k, srt)
+			m.heap[k] = flagVal(sts[0], k, srt)
 		} else {
 			m.heap[k] = fc.smt.defineAlways("H_"+k, srt, t)
 		}
@@ -276,6 +285,14 @@ func (br *bodyRun) enter(b *ssa.BasicBlock) *State {
 		}
 		fc.vals[phi] = nv
 		fc.assume(st, fc.typeInv(st, phi.Type(), nv))
+		if phi.Comment == "rangeindex" && isInt(phi.Type()) && len(phi.Edges) == 2 {
+			// structural fact of go/ssa's range loops: the hidden index starts at -1 and is
+			// incremented only after index+1 < len was checked
+			if c, ok := phi.Edges[0].(*ssa.Const); ok && c.Value != nil && c.Value.ExactString() == "-1" {
+				fc.assume(st, app("bvsle", bvlit(^uint64(0), 64), nv.(Scalar).T))
+				fc.assume(st, app("bvslt", nv.(Scalar).T, bvlit(1<<46, 64)))
+			}
+		}
 	}
 	for _, c := range invs {
 		env := br.envAt(b, phiCount(b), st, nil)
